@@ -460,6 +460,42 @@ pub fn run(ctx: &Ctx) -> (Spec, Report) {
         }
         jobs.push(Job { tree, lang, multi: true, variants, label: "fresh-processes-ambiguous-names".into(), dirs: vec![] });
     }
+    // (a2) a crate that shares nothing but constants, spread over three files, next to an ordinary crate: every delivery
+    // order of the five files (the constants' order in the output is the sorted one, not the arrival order)
+    for &lang in &[LangId::Ts, LangId::Go, LangId::Python] {
+        for multi in [false, true] {
+            if multi && lang == LangId::Go {
+                continue;
+            }
+            let files = vec![
+                SrcFile { path: "limits/src/lib.rs".into(), source: "#[typeshare]\npub const QMIDDLE_LIMIT: u32 = 20;\n#[typeshare]\npub const QALPHA_LIMIT: u32 = 10;\n".into() },
+                SrcFile { path: "limits/src/more.rs".into(), source: "#[typeshare]\npub const QZULU_LIMIT: u32 = 30;\n#[typeshare]\npub const QBRAVO_LIMIT: u32 = 11;\n".into() },
+                SrcFile { path: "limits/src/deep/last.rs".into(), source: "#[typeshare]\npub const QCHARLIE_LIMIT: u32 = 12;\n".into() },
+                SrcFile { path: "ordinary/src/lib.rs".into(), source: "#[typeshare]\npub struct Qordinary { pub a: u8 }\n#[typeshare]\npub const QORDINARY_MAX: u32 = 5;\n".into() },
+                SrcFile { path: "ordinary/src/second.rs".into(), source: "#[typeshare]\npub const QANOTHER_MAX: u32 = 6;\n#[typeshare]\npub enum Qkind { A, B }\n".into() },
+            ];
+            let tree = Tree { files, n_source_files: 5, has_consts: true };
+            let mut variants: Vec<(String, Vec<(String, String)>)> = vec![];
+            for p in perms(5) {
+                let spec = format!("perm:{}", p.iter().map(|x| x.to_string()).collect::<Vec<_>>().join(","));
+                variants.push((spec.clone(), vec![("TYPESHARE_VERIF_ORDER".to_string(), spec)]));
+            }
+            jobs.push(Job { tree, lang, multi, variants, label: "all-permutations-constants-only-crate".into(), dirs: vec![] });
+        }
+    }
+    // (c3) names that are both keys of the type-mapping table and shared types of another crate, imported by name:
+    // whether such an import is left out is looked up in a list built from a HashMap's keys
+    for &lang in &[LangId::Ts, LangId::Kotlin, LangId::Swift, LangId::Python] {
+        let files = vec![
+            SrcFile { path: "common/src/lib.rs".into(), source: "#[typeshare]\npub struct Money { pub cents: u32 }\n#[typeshare]\npub struct Stamp { pub at: u32 }\n#[typeshare]\npub struct Url { pub s: String }\n#[typeshare]\npub struct Uuid { pub s: String }\n#[typeshare]\npub struct Plain { pub p: u8 }\n".into() },
+            SrcFile { path: "billing/src/lib.rs".into(), source: "use common::{Money, Stamp, Url, Uuid, Plain};\n#[typeshare]\npub struct Invoice { pub total: Money, pub at: Stamp, pub link: Option<Url>, pub ids: Vec<Uuid>, pub plain: Plain }\n".into() },
+            SrcFile { path: "billing/src/second.rs".into(), source: "use common::Money;\nuse common::Uuid;\n#[typeshare]\npub struct Refund { pub amount: Money, pub id: common::Uuid, pub why: common::Plain }\n".into() },
+            SrcFile { path: "shipping/src/lib.rs".into(), source: "use common::*;\n#[typeshare]\npub struct Parcel { pub value: Money, pub track: Url }\n".into() },
+        ];
+        let tree = Tree { files, n_source_files: 4, has_consts: false };
+        let variants = (0..ctx.tier.pick(16, 60)).map(|i| (format!("process#{i}"), vec![])).collect();
+        jobs.push(Job { tree, lang, multi: true, variants, label: "fresh-processes-mapped-imports".into(), dirs: vec![] });
+    }
     // (c'') the fixed core of (c'): two providers of one name under its own name, six consumer crates that import it
     // explicitly from one and glob-import the other (in both textual orders), fresh processes
     for &lang in &[LangId::Ts, LangId::Kotlin, LangId::Swift, LangId::Python] {
@@ -498,7 +534,16 @@ pub fn run(ctx: &Ctx) -> (Spec, Report) {
         write_tree(&root, &files);
         unignore_tool_directories(&root);
         // every other job runs under a configuration with all file-only tables filled
-        let cfg = if j % 2 == 0 { rich_cfg(job.lang) } else { LangCfg::basic(job.lang) };
+        let cfg = if job.label.contains("mapped-imports") {
+            // six mapped names, four of them typeshared in another crate and imported by name
+            let mut c = LangCfg::basic(job.lang);
+            c.type_mappings = [("Money", "MappedMoney"), ("Stamp", "MappedStamp"), ("Url", "MappedUrl"), ("Uuid", "MappedUuid"), ("Decimal", "MappedDecimal"), ("Blob", "MappedBlob")].iter().map(|(a, b)| (a.to_string(), b.to_string())).collect();
+            c
+        } else if j % 2 == 0 {
+            rich_cfg(job.lang)
+        } else {
+            LangCfg::basic(job.lang)
+        };
         let lname = job.lang.name();
         let mode = if job.multi { "multi-file" } else { "single-file" };
         let mut reference: Option<(String, BTreeMap<String, Vec<u8>>)> = None;
